@@ -983,7 +983,8 @@ static int load_module_symbol_file(struct uftrace_symtab *symtab, const char *sy
 			type = *pos++;
 		}
 
-		if (*pos++ != ' ') {
+		/* a truncated line ends before the type or before the name */
+		if (type == '\0' || *pos++ != ' ' || *pos == '\0') {
 			pr_dbg4("invalid symbol file format after type\n");
 			continue;
 		}
